@@ -24,6 +24,9 @@ const (
 	tagFewIno  = "ext4-create-few-inodes-underflow"
 	tagFlexFit = "ext4-create-flex-meta-overflow"
 	tagBmCsum  = "ext4-create-bitmap-csum-small-groups"
+	tagIpgMax  = "ext4-create-inodes-per-group-over-bitmap"
+	tagGroups  = "ext4-create-group-count-ignores-first-data-block"
+	tagJrnlGrp = "ext4-create-noflex-journal-over-group"
 	MiB        = int64(1 << 20)
 )
 
@@ -241,7 +244,12 @@ func one(c *hx.Ctx, id string, cfg x.Config, scratch string) {
 	// group (few-inodes underflow), and sparse_super2, whose backup "block numbers" 1 and groups-1 make
 	// writeSuperblock put a superblock copy over block 1 - the primary group descriptor table when the block
 	// size is 2 or 4 KiB
-	if v.IPG >= 11 && cfg.Sparse != 2 {
+	// ... and a block count of k x blocksPerGroup + firstDataBlock, for which Create counts one (empty) group
+	// more than the superblock's own numbers describe (finding ext4-create-group-count-ignores-first-data-block)
+	ceilDiv := func(a, b uint64) uint64 { return (a + b - 1) / b }
+	groupsOff := ceilDiv(v.BlocksCount, uint64(v.BPG)) != ceilDiv(v.BlocksCount-uint64(v.FirstDataBlock), uint64(v.BPG))
+	journalOn := x.On(cfg.Journal, true)
+	if v.IPG >= 11 && cfg.Sparse != 2 && !groupsOff {
 		modelCase()
 		c.Impl(id, fmt.Sprintf("bs=%d", v.BlockSize), fmt.Sprintf("nb=%d", v.BlocksCount), fmt.Sprintf("bpg=%d", v.BPG),
 			fmt.Sprintf("groups=%d", len(v.Groups)), fmt.Sprintf("ipg=%d", v.IPG), fmt.Sprintf("icount=%d", v.InodesCount),
@@ -250,8 +258,14 @@ func one(c *hx.Ctx, id string, cfg x.Config, scratch string) {
 	}
 	classify := func(out string) string {
 		switch {
-		case v.IPG < 11 && strings.Contains(out, "Free inodes count wrong for group #0"):
+		case v.IPG < 11 && (strings.Contains(out, "Free inodes count wrong for group #0") || strings.Contains(out, "(inodes_per_group =") || strings.Contains(out, "(first_ino =")):
 			return tagFewIno
+		case v.IPG > 8*v.BlockSize && strings.Contains(out, "superblock is corrupt"):
+			return tagIpgMax
+		case groupsOff && (strings.Contains(out, "Inode count in superblock is") || strings.Contains(out, "superblock is corrupt")):
+			return tagGroups
+		case !flexOn && journalOn && uint64(v.BPG)*uint64(v.BlockSize) <= 4<<20 && strings.Contains(out, "Multiply-claimed block(s) in inode 2"):
+			return tagJrnlGrp
 		case !fitsGo(v, flexOn, cfg.LogFlex) && (strings.Contains(out, "not in group") || strings.Contains(out, "bad block for") || strings.Contains(out, "Group descriptors look bad")):
 			return tagFlexFit
 		case x.On(cfg.Csum, false) && v.BPG != 8*v.BlockSize && strings.Contains(out, "block bitmap does not match checksum"):
@@ -261,7 +275,7 @@ func one(c *hx.Ctx, id string, cfg x.Config, scratch string) {
 		case x.On(cfg.ProjQuota, false) && strings.Contains(out, "Inode bitmap differences"):
 			return tagProjQ
 		case v.ReservedGDT > 0 && (!flexOn || (cfg.LogFlex != 0 && cfg.LogFlex != 3) || v.BPG != 8192 || len(v.Groups) < 8) &&
-			strings.Contains(out, "Inode 7, i_size is") && !strings.Contains(out, "bitmap differences") && !strings.Contains(out, "count wrong"):
+			(strings.Contains(out, "Inode 7, i_size is") || strings.Contains(out, "Resize inode not valid")) && !strings.Contains(out, "bitmap differences") && !strings.Contains(out, "count wrong"):
 			return tagResize
 		}
 		return "-"
